@@ -85,6 +85,7 @@ impl EchoReq {
             req,
             cancel_ms: 0,
             no_length: false,
+            frames: vec![],
         }
     }
 }
@@ -609,7 +610,25 @@ pub fn gen_page(r: &mut Rng, nonce: u64, steps: u32, step_ms: u64) -> EchoReq {
         if let Some(f) = flag {
             query.push(("flag".to_string(), f.to_string()));
         }
-        canon = json!({"first": tag, "min": min, "ord": ord, "flag": flag, "limit": eff});
+        // a string member of a flattened struct: whatever it looks like, it
+        // is a string
+        let note = if r.chance(1, 2) {
+            Some(if r.chance(1, 2) {
+                (*r.pick(&["2024", "007", "-5", "+1", "true", "false", "0.5", "1e3", "nan", "inf", "null", "0"])).to_string()
+            } else {
+                gen_string(r, 10)
+            })
+        } else {
+            None
+        };
+        if let Some(n) = &note {
+            query.push(("note".to_string(), enc_form(r, n)));
+        }
+        // keys that are not fields are ignored (numbers included)
+        if r.chance(1, 6) {
+            query.push(((*r.pick(&["0", "1", "4", "zz"])).to_string(), "ignored".to_string()));
+        }
+        canon = json!({"first": tag, "min": min, "ord": ord, "flag": flag, "note": note, "limit": eff});
     } else {
         let n = *r.pick(&[0u32, 1, 41, u32::MAX]);
         let s = gen_string(r, 20);
@@ -717,6 +736,30 @@ pub fn gen_mp(r: &mut Rng, nonce: u64, steps: u32, step_ms: u64) -> EchoReq {
     }
 }
 
+/// `/who/{who}`: an untagged number-or-name path variable.  Through dropshot's
+/// map deserializer every value is text, so every value is a name.
+pub fn gen_who(r: &mut Rng, nonce: u64, steps: u32, step_ms: u64) -> EchoReq {
+    let who = if r.chance(1, 2) {
+        (*r.pick(&["2024", "007", "-5", "true", "0.5", "nan", "18446744073709551615", "0"])).to_string()
+    } else {
+        let s = gen_seg(r, 10);
+        if s.is_empty() { "x".to_string() } else { s }
+    };
+    EchoReq {
+        op: "echo_who",
+        method: "GET",
+        path_segs: vec!["who".into(), enc_seg(r, &who)],
+        query: vec![],
+        headers: base_headers(r, nonce, steps, step_ms),
+        ctype: None,
+        ctype_name: "content-type",
+        body: None,
+        framing: BodyFraming::None,
+        canon: json!({"who": {"name": who}}),
+        boundary_style: 0,
+    }
+}
+
 pub fn gen_wild(r: &mut Rng, nonce: u64, steps: u32, step_ms: u64) -> EchoReq {
     let n = r.usize_in(0, 5);
     let segs: Vec<String> = (0..n).map(|_| gen_seg(r, 8)).collect();
@@ -788,7 +831,8 @@ pub fn gen_thing(r: &mut Rng, nonce: u64, steps: u32, step_ms: u64) -> (EchoReq,
 }
 
 pub fn gen_any(r: &mut Rng, nonce: u64, steps: u32, step_ms: u64) -> EchoReq {
-    match r.below(12) {
+    match r.below(13) {
+        12 => gen_who(r, nonce, steps, step_ms),
         11 => gen_page(r, nonce, steps, step_ms),
         10 => gen_rawreq(r, nonce, steps, step_ms),
         0 | 1 | 2 => gen_typed(r, nonce, steps, step_ms),
